@@ -316,6 +316,18 @@ UNSUPPORTED = {
 
 DOT_FAMILY = ("dot", "norm", "normsq", "dist", "relative_error", "rmse", "r_squared", "eq", "m_dot", "m_norm")
 
+def _set_factors(t, name):
+    t = t.clone(); t.set_factors(name)
+    return t
+
+
+def _apply_basis(a, name):
+    for m in range(1, a.ndim):
+        Bm = tn.generate_basis(name, (a.shape[m], a.shape[m])).double().numpy()
+        a = np.moveaxis(np.tensordot(Bm, a, axes=(1, m)), 0, m)
+    return a
+
+
 # operations built on the supported ones: may raise, but if they return, every element must be right
 EITHER = {
     "invert": (lambda t, u: ~t, lambda a, b: 1 - a), "and": (lambda t, u: t & u, lambda a, b: a * b),
@@ -330,6 +342,9 @@ EITHER = {
     "repeat1": (lambda t, u: t.repeat(*([1] * t.dim())), lambda a, b: a),
     "repeat2": (lambda t, u: t.repeat(*([2] + [1] * (t.dim() - 1))), lambda a, b: np.tile(a, [1, 2] + [1] * (a.ndim - 2))),
     "squeeze": (lambda t, u: tn.squeeze(t), lambda a, b: np.squeeze(a)),
+    # set_factors on a tensor without Tucker factors: every mode gets the square basis as its factor, the cores stay
+    "set_factors": (lambda t, u: _set_factors(t, "dct"), lambda a, b: _apply_basis(a, "dct")),
+    "set_factors_legendre": (lambda t, u: _set_factors(t, "legendre"), lambda a, b: _apply_basis(a, "legendre")),
     "ttm": (lambda t, u: tn.ttm(t, torch.arange(t.shape[0] * 2 * t.shape[1], dtype=torch.float64).reshape(t.shape[0], 2, t.shape[1]) - 3, dim=0),
             lambda a, b: np.einsum("bji,bi...->bj...", np.arange(a.shape[0] * 2 * a.shape[1], dtype=np.float64).reshape(a.shape[0], 2, a.shape[1]) - 3, a)),
 }
@@ -660,6 +675,8 @@ class Prop:
             for _ in range(12 if quick else 90):
                 N = rng.randint(2, 3); B = rB(); shape = rshape(N)
                 kinds = anyfmt(N)
+                if name.startswith("set_factors"):
+                    kinds = NAMED[rng.choice(["tt", "cp"])](N)
                 if name == "squeeze":
                     B = rng.randint(2, 4)
                 kf = "flip-batch" if name == "flip" else "D17" if name == "squeeze" and all(x == 1 for x in shape) else ""
